@@ -87,6 +87,16 @@ def check_impl(ctx, cases):
                 tot = sum(abs(tps[q] * w[q][6]) for q in range(1, len(w)) if tps[q] != tps[q - 1])
                 if tot == 0.0 or flowmax / tot > 1000:
                     continue
+            if ind == "CCI":
+                # the property's conditioning rule for CCI (C03): c = maxmag / (0.015 * MAD) <= 1e6; flat windows are C08's
+                p_ = c.meta["params"][0]
+                w = base_bars[max(0, step + 1 - p_):step + 1]
+                tps = [(x_[5] + x_[3] + x_[4]) / 3.0 for x_ in w]
+                mean_ = sum(tps) / len(tps)
+                mad_ = sum(abs(t_ - mean_) for t_ in tps) / len(tps)
+                mm_ = max(abs(t_) for t_ in tps)
+                if mad_ <= 1e-9 * mm_:
+                    continue
             if va is None or vb is None or any(x != x or abs(x) == float("inf") for x in va + vb):
                 continue
             ncmp += 1
